@@ -31,7 +31,7 @@ def _func(module, text, note_extra=""):
 ENGINES = [
     {"name": "walring", "path": "lib/eng_walring.py", "serves_properties": ["C05"],
      "kind_free_text": "WalRing/WalAbs TLA+ models; transition tour of the TLC state graph replayed on the real EmbeddedWal; random real runs validated by TLC"},
-    {"name": "core", "path": "lib/eng_core.py", "serves_properties": ["C01", "C06", "C07", "C08", "C15", "C19", "C24", "C25"],
+    {"name": "core", "path": "lib/eng_core.py", "serves_properties": ["C01", "C06", "C07", "C08", "C14", "C15", "C18", "C19", "C21", "C24", "C25", "C42"],
      "kind_free_text": "Mv2Core TLA+ specification; harness `mvh core-run` executes abstract histories on the real Memvid and logs the projected abstract state; Trace_Mv2Core validates every call; MC_Mv2Core is model-checked and used as scenario generator"},
 ]
 ENGINES.append({"name": "lock", "path": "lib/eng_lock.py", "serves_properties": ["C17"],
@@ -52,6 +52,10 @@ CLAIMED = {
     "C06": _core("next_frame_id() before every put, the id of every frame, chunk parent links and chunk index/count are compared with the specification after every call (NextIdPredicts / ApplyIsAppendOnly are model-checked invariants)."),
     "C07": _core("The payload id (digest of frame_canonical_payload looked up in the table of concretised payloads), blob-reader equality and chunk concatenation of every frame are compared with the specification at every full observation; payload classes: binary, zero-filled, short text, text above the chunking threshold."),
     "C08": _core("Status, supersedes/superseded_by links, frame_by_uri results and the results of update/delete calls are compared with the specification (UriNewest, OneActiveSuccessor, LinksConsistent are model-checked)."),
+    "C14": _core("The embedding id of every frame as served by the vector index, and - for every embedding ever used - the exact set of frames vector search returns at distance 0, are compared with the specification (active frames given that embedding directly, via chunk embeddings, or carried over by an update) after commit, reopen, replay, vacuum and doctor (also with rebuild_vec_index).", "Default features: the brute-force index; the HNSW representation switch (feature hnsw_bench, >= 1000 vectors) is not built in this revision."),
+    "C18": _core("Histories open read-only handles on files with and without pending log records and issue reads (timeline, frame_by_uri, vector probes, verify, stats); after every call the file's bytes (digest), length and mtime must equal those at open time, and the frame table shown must be the last committed one (the specification's OpenRO takes a snapshot of the committed table, never the pending window).", "Writes that restore identical bytes within the same mtime granularity would escape the digest/mtime comparison; the disk engine's recorder closes that gap when built."),
+    "C21": _core("Doctor runs (all option combinations, dry runs, on files with pending log records left by a lost handle, after vacuum, twice in a row) are specification actions: the frame table, payload ids, descriptive fields and embeddings after doctor, the reported status (a second immediate run must be Clean) and the verification result (Passed after a healing run; verify() afterwards) are compared.", "Crash-interrupted and structurally damaged inputs belong to the disk engine and are not part of this check in this revision."),
+    "C42": _core("vacuum (directly and through doctor) is a specification action: ids, status, payload ids, descriptive fields, embeddings, timeline results and next_frame_id after vacuum, after further puts and after reopen must equal the specification's; verify() must pass once the handle is closed.", "Search results around vacuum are the query engine's subject."),
     "C15": _core("Every timeline() call issued in the histories (since/until/reverse/limit) must return exactly the sequence the specification computes from the visible frame table (active document frames by (timestamp, id)).", "Frame roles other than document/chunk are exercised by the query engine, not here."),
     "C19": _core("The directory listing is logged after every call (successful or failing) of every history and must be exactly the one .mv2 file."),
     "C24": _core("Capacity: CapacityExceeded results and the payload end after every commit are compared with the specification's capacity rule; histories with tickets granting a few KB above the data start and stored-plain payloads of boundary sizes."),
